@@ -76,7 +76,7 @@ def minimize_noise(show_warnings, ui, for_profiling):  # pylint: disable=too-man
 
         for k, value in result.items():
             if value == "failed":
-                failed += "{ind}{ind} - " + k + "\n"
+                failed += "{ind}{ind} - " + escape_braces(str(k)) + "\n"
 
         if not use_nice:
             failed += "{ind}{ind} - nice was not used\n"
@@ -113,14 +113,14 @@ def minimize_noise(show_warnings, ui, for_profiling):  # pylint: disable=too-man
             success = True
     else:
         if 'password is required' in output:
-            msg += '{ind}Please make sure `sudo ' + paths.get_denoise() + '`' \
+            msg += '{ind}Please make sure `sudo ' + escape_braces(paths.get_denoise()) + '`' \
                    + ' can be used without password.\n'
             msg += '{ind}To be able to run denoise without password,\n'
             msg += '{ind}add the following to the end of your sudoers file (using visudo):\n'
-            msg += '{ind}{ind}' + getpass.getuser() + ' ALL = (root) NOPASSWD:SETENV: '\
-                   + paths.get_denoise() + '\n'
+            msg += '{ind}{ind}' + escape_braces(getpass.getuser()) + ' ALL = (root) NOPASSWD:SETENV: '\
+                   + escape_braces(paths.get_denoise()) + '\n'
         elif 'command not found' in output:
-            msg += '{ind}Please make sure ' + paths.get_denoise() + ' is accessible.\n'
+            msg += '{ind}Please make sure ' + escape_braces(paths.get_denoise()) + ' is accessible.\n'
         elif "No such file or directory: 'sudo'" in output:
             msg += "{ind}sudo is not available. Can't use denoise to manage the system.\n"
         else:
